@@ -241,7 +241,8 @@ class World:
                     if mem.kind == "func" and key not in calls:
                         calls[key] = (
                             lambda it, nd, a, k, fn_=mem.node: it.call_function(
-                                fn_, [it._self] + list(a),
+                                fn_, [(getattr(it, "_self_stack", None) or
+                                       [it._self])[-1]] + list(a),
                                 dict(self.glob, __kwargs__=dict(k))))
         return Interp(calls=calls,
                       attrs=lambda it, nd, b, at: Opaque(ast.unparse(nd)),
